@@ -535,6 +535,29 @@ def binary_roundtrip(run, fgd: Any, engine: str, case: Any) -> bool:
         return False
     got = G.snap_fgd(back)
     ok = True
+    if len(before) < 400:
+        # the same database written behind other bytes in a stream and read from where it starts there (looked up entity by
+        # entity, which is what reads the blocks lazily)
+        lead = b'\x00' * 32 if len(before) % 2 else b'container header\n'
+        try:
+            sbuf = io.BytesIO()
+            sbuf.write(lead)
+            with quiet_stdout(), warnings.catch_warnings():
+                warnings.simplefilter('ignore')
+                E.serialise(fgd, sbuf)
+            sbuf.seek(len(lead))
+            db_off = E.unserialise(sbuf)
+            got_off = {k: G.snap_ent(db_off.get_ent(k)) for k in sorted(before)}
+        except Exception as exc:
+            run.violation(f'a database written at offset {len(lead)} of a stream and read from there raised {type(exc).__name__}: {exc}',
+                          case=case, engine=engine, key='binary-stream-offset')
+            return False
+        run.count('databases_read_from_a_stream_offset')
+        d_off = G.first_diff({k: got.get(k) for k in sorted(before)}, got_off)
+        if d_off is not None:
+            run.violation(f'a database written at offset {len(lead)} of a stream reads back differently at {d_off[0]}',
+                          witness={'diff': _clip(d_off, 600)}, case=case, engine=engine, key='binary-stream-offset')
+            return False
     if set(got) != set(before):
         ok = False
         missing = sorted(set(before) - set(got))
@@ -1014,7 +1037,7 @@ def main(run, shard=(0, 1)) -> None:
     run.require(*['reach:' + label_ for label_ in probe.counts])
     run.require('spawnflag_names_with_leading_blanks', 'exports', 'parses', 'file_form_exports', 'fgd_level_sections_compared', 'visgroup_trees_checked_against_export', 'engine_db_shape_checks', 'returned_definitions_edited', 'lazy_queries_after_a_full_load', 'serialise_twice', 'tagged_member_refused', 'entities_compared', 'second_exports', 'serialise_calls', 'unserialise_calls',
                 'lazy_queries', 'dbase_roundtrips', 'binary_dbase_roundtrips', 'long_strings', 'empty_display_names',
-                'tagged_duplicate_keys', 'aliases', 'texts_with_plus_split', 'binary_entities_compared', 'classes_compared_with_an_extra_database',
+                'tagged_duplicate_keys', 'aliases', 'texts_with_plus_split', 'binary_entities_compared', 'classes_compared_with_an_extra_database', 'databases_read_from_a_stream_offset',
                 'overriding_definitions_checked')
 
 
@@ -1060,4 +1083,4 @@ def replay(run, data) -> None:
 
 
 # (kept at the end of the file so that the text above stays the description the check was first built to)
-RULE += ' ' + 'Later additions: the visgroup tree of the FGD given to export() is preserved by it; every entity of the bundled database reaches _CBaseEntity_; definitions returned by engine_def() are edited (everything mutable, bases included) and looked up again. The text of every round trip is read a second time after everything the first read returned was edited; both reads give the same definitions. A second binary database (150 sampled classes with their bases, twelve of them changed) is registered with add_engine_database: single look-ups made before and after a full load agree with the full load for overridden and bundled-only classes, and both hand out the overriding definition. Every round-trip text is also read with eval_bases=False and completed with apply_bases(): export and definitions equal those of the plain read.'
+RULE += ' ' + 'Later additions: the visgroup tree of the FGD given to export() is preserved by it; every entity of the bundled database reaches _CBaseEntity_; definitions returned by engine_def() are edited (everything mutable, bases included) and looked up again. The text of every round trip is read a second time after everything the first read returned was edited; both reads give the same definitions. A second binary database (150 sampled classes with their bases, twelve of them changed) is registered with add_engine_database: single look-ups made before and after a full load agree with the full load for overridden and bundled-only classes, and both hand out the overriding definition. Every round-trip text is also read with eval_bases=False and completed with apply_bases(): export and definitions equal those of the plain read. Every binary round trip of a generated FGD is repeated with the database written behind other bytes in a stream and read, entity by entity, from where it starts there.'
